@@ -21,7 +21,7 @@ import os, sys, re, json, itertools, subprocess
 PROPERTY = "C02"
 LEVEL = "exploration"
 MAXTASKS = 4
-RULE = ("namer level: every ordered tuple (k<=3) / multiset in both creation orders (k=4, thorough) of signal specs "
+RULE = ("namer level: every ordered tuple (k<=3) / multiset in both creation orders (k=4, thorough, without override 'always') of signal specs "
         "(back-trace shape x name_override [x related-to-an-earlier-signal vectors, chain <= 2]) from the menus in "
         "coverage.menus, plus one keyword family (each of the 248 IEEE 1800-2017 keywords as override / as leaf name / "
         "twice / next to '<kw>_1'); each scenario is evaluated for every permutation of first get_name calls and with "
@@ -129,6 +129,7 @@ R_OVERRIDES_4 = [0, 1, 2, 5]                  # None x x_1 repeat
 
 FULL = [(s, o) for s in range(N_BASE_SHAPES) for o in range(len(OVERRIDES))]
 EXT = [(s, o) for s in range(len(SHAPES)) for o in range(len(OVERRIDES))]
+FULL4 = [(s, o) for s, o in FULL if OVERRIDES[o] != "always"]      # k = 4: "always" behaves like "reg" (both are escaped); 90 specs
 RED_Q = [(s, o) for s in R_SHAPES_Q for o in R_OVERRIDES_Q]
 RED_4 = [(s, o) for s in R_SHAPES_4 for o in R_OVERRIDES_4]
 
@@ -167,7 +168,7 @@ def configs(tier):
     c += [("namer.flat.k3(full menu, ordered).part%02d/%d" % (p, NPART["flat3"]), "flat3", p) for p in range(NPART["flat3"])]
     c += [("namer.related.k2-3(reduced menu, ordered).part%02d/%d" % (p, NPART["relq"]), "relq", p) for p in range(NPART["relq"])]
     if tier == "thorough":
-        c += [("namer.flat.k4(full menu, multisets x 2 creation orders).part%03d/%d" % (p, NPART["flat4"]), "flat4", p) for p in range(NPART["flat4"])]
+        c += [("namer.flat.k4(full menu less override always, multisets x 2 creation orders).part%03d/%d" % (p, NPART["flat4"]), "flat4", p) for p in range(NPART["flat4"])]
         c += [("namer.flat.k3x(24-shape menu, ordered, at least one extended shape).part%02d/%d" % (p, NPART["flat3x"]), "flat3x", p) for p in range(NPART["flat3x"])]
         c += [("namer.related.k3(full menu, ordered).part%02d/%d" % (p, NPART["rel3"]), "rel3", p) for p in range(NPART["rel3"])]
         c += [("namer.related.k4(reduced menu, ordered).part%03d/%d" % (p, NPART["rel4"]), "rel4", p) for p in range(NPART["rel4"])]
@@ -195,7 +196,7 @@ def scenarios(kind, part):
                 yield specs, (-1, -1, -1), False
     elif kind == "flat4":
         n = NPART[kind]
-        for i, specs in enumerate(itertools.combinations_with_replacement(FULL, 4)):
+        for i, specs in enumerate(itertools.combinations_with_replacement(FULL4, 4)):
             if i % n == part:
                 yield specs, (-1,) * 4, False
                 if specs[0] != specs[3]:                # (all four equal: the reversed creation order is the same case)
